@@ -79,6 +79,7 @@ CmdSpec ParseCmd(const string& line) {
     else if (k == "p") c.print = Unhex(v);
     else if (k == "msvc") c.msvc = v != "0";
     else if (k == "nl") c.notes_last = v != "0";
+    else if (k == "mp") c.msvc_prefix = Unhex(v);
     else if (k == "dt") c.detach = v != "0";
     else if (k == "restat") c.restat = v != "0";
     else if (k == "gen") c.gen = v != "0";
